@@ -252,6 +252,11 @@ func (g *gen) bit() int {
 	return b
 }
 
+// structValueTypes are the types whose values embed references and are copied by value.
+func (g *gen) typeOff(t Type) bool {
+	return (t == TS || t == TE) && g.p.Off["struct-value-copy"]
+}
+
 func (g *gen) varsOf(t Type) []variable {
 	var r []variable
 	for _, v := range g.scope {
